@@ -139,7 +139,7 @@ fn ws_positions(s: &str) -> Vec<usize> {
 
 pub fn build(tier: Tier) -> Check<'static> {
     let mut c = Check::new("C14", tier, "6/C14");
-    c.rule = "accepted seed (preprocessor fixed points only) x every token boundary x 3 bad bytes; x every single bracket / block keyword deleted; the same through `include; 8 pp programs x every line start x 9 lexical faults; non-trivial = every mutant (distinct by construction)".into();
+    c.rule = "accepted seed (preprocessor fixed points only) x every token boundary x 3 bad bytes; x every single bracket / block keyword deleted; the same through `include; mutants through all three strict routes to a tree x ignore_include; 8 pp programs x every line start x 9 lexical faults; non-trivial = every mutant (distinct by construction)".into();
     c.assumptions = vec![
         "every sentence of the grammar is balanced in ( ) [ ] { } characters outside strings, comments and escaped identifiers, and in begin/end, fork/join*, case/endcase and the other block keyword pairs; hence deleting one of them cannot yield a sentence".into(),
         "the end of an escaped identifier is not a token boundary (any non-blank byte extends it)".into(),
@@ -207,6 +207,77 @@ pub fn build(tier: Tier) -> Check<'static> {
                     acc.violation(None, case, format!("panic {}", p));
                 }
             }
+        }));
+    }
+    {
+        // every strict route to a tree must reject the mutant: file, string and two-step entry points,
+        // whatever ignore_include says (the seeds used here hold no `include)
+        let (s, bt, dt) = (seeds.clone(), bad_tab.clone(), del_tab.clone());
+        let (sb, sd) = (tier.pick(5usize, 1usize), tier.pick(2usize, 1usize));
+        let nb = (bt.len() + sb - 1) / sb;
+        let nd = (dt.len() + sd - 1) / sd;
+        c.parts.push(Part::new("entry-points", (nb + nd) as u64, "bad-byte (\\x01; quick: every 5th boundary) and deleted-delimiter (quick: every 2nd) mutants through parse_sv(file), parse_sv_str and preprocess_str + parse_sv_pp, each with ignore_include off and on: all six must fail with Error::Parse (bad byte: location in the file, not after the byte)", move |i, acc| {
+            let i = i as usize;
+            let (si, m, limit, what) = if i < nb {
+                let (si, p) = bt[i * sb];
+                let Some(b) = base_of(&s[si].text, false) else { return };
+                (si, format!("{}\u{1}{}", &b.text[..p], &b.text[p..]), Some(p), format!("byte \\x01 inserted at {}", p))
+            } else {
+                let (si, k) = dt[(i - nb) * sd];
+                let Some(b) = base_of(&s[si].text, false) else { return };
+                let t = &b.toks[k];
+                (si, format!("{}{}", &b.text[..t.b], &b.text[t.e..]), None, format!("{:?} at {} deleted", &b.text[t.b..t.e], t.b))
+            };
+            if m.contains("`include") {
+                return;
+            }
+            let dir = thread_dir("C14");
+            let file = dir.join("ep_top.sv");
+            if std::fs::write(&file, &m).is_err() {
+                acc.class("io-skip");
+                return;
+            }
+            acc.nontrivial += 1;
+            let d = Defs::new();
+            let incs: Vec<PathBuf> = vec![];
+            for ignore in [false, true] {
+                let routes: Vec<(&str, api::ParseResult)> = vec![
+                    ("parse_sv(file)", api::parse_sv_file(&file, &d, &incs, ignore, false)),
+                    ("parse_sv_str", api::parse_sv_str(&m, &file, &d, &incs, ignore, false)),
+                    ("preprocess_str + parse_sv_pp", match api::pp_str(&m, &file, &d, &incs, ignore, false) {
+                        Err(p) => Err(p),
+                        Ok(Err(e)) => Ok(Err(e)),
+                        Ok(Ok((pt, dd))) => api::guarded(|| sv_parser::parse_sv_pp(pt, dd, false)),
+                    }),
+                ];
+                for (route, r) in routes {
+                    acc.transitions += 1;
+                    let case = json!({"seed": s[si].id, "mutation": what, "route": route, "ignore_include": ignore, "source": clip(&m, 2000)});
+                    let w = format!("{} of seed {} through {} (ignore_include = {})", what, s[si].id, route, ignore);
+                    match limit {
+                        Some(p) => expect_parse_error_at(acc, r, &file, p, case, &w),
+                        None => {
+                            acc.traces += 1;
+                            match r {
+                                Ok(Err(Error::Parse(_))) => acc.class("rejected"),
+                                Ok(Err(e)) => {
+                                    acc.class("violation");
+                                    acc.violation(None, case, format!("{}: expected Error::Parse, got {}", w, err_sig(&e)));
+                                }
+                                Ok(Ok(_)) => {
+                                    acc.class("violation");
+                                    acc.violation(None, case, format!("{}: the source is accepted", w));
+                                }
+                                Err(pn) => {
+                                    acc.class("violation");
+                                    acc.violation(None, case, format!("{}: panic {}", w, pn));
+                                }
+                            }
+                        }
+                    }
+                }
+            }
+            let _ = std::fs::remove_file(&file);
         }));
     }
     {
